@@ -521,7 +521,7 @@ func runC19(c *core.Ctx) {
 	for i := 0; i < c.Pick(150, 3000); i++ {
 		l := make([]c19DRec, 2+rng.Intn(12))
 		for j := range l {
-			l[j] = c19DRec{K1: fpgo.NewComparableOrdered(extremeInts[rng.Intn(len(extremeInts))]), K2: fpgo.NewComparableString([]string{"", "a", "b", "\xff"}[rng.Intn(4)]),
+			l[j] = c19DRec{K1: fpgo.NewComparableOrdered(extremeInts[rng.Intn(len(extremeInts))]), K2: fpgo.NewComparableString([]string{"", "a", "b", "\xff", "\xfe", "caf\xe9", "caf\xe8", "\xf0\x9f", "\U00010000", "\uffff", "\u00e9", "a\x00", "a\x00b"}[rng.Intn(13)]),
 				K3: fpgo.NewComparableOrdered(extremeFloats[rng.Intn(len(extremeFloats))]), ID: j}
 		}
 		dl = append(dl, l)
@@ -530,6 +530,7 @@ func runC19(c *core.Ctx) {
 	c19Forks(e, dl[len(dl)-40:], stacks)
 	c19MixedDynamicTypes(e, dl[len(dl)-60:], stacks)
 	c19SignedZeros(e, rng, c.Pick(200, 5000))
+	c19SameNamedTypes(e)
 	c19DescriptorSorts(e, dl, stacks)
 	c.Count("descriptor_lists", int64(len(dl)))
 	c.Count("descriptor_stacks", int64(len(stacks)))
@@ -545,7 +546,7 @@ func init() {
 			return core.Meta{
 				Level: "exploration",
 				Rule: "records carry a unique id = input position. Comparator sorts (Sort, SortSlice, Stream.Sort, Stream.SortByIndex and the interface{} twins; SortOrdered/Ascending/Descending on int/string/float64): every list of length 0..L over keys {0,1,2} (L=6 quick, 8 thorough) plus PRNG lists up to 200, five comparators incl. composite and all-equal; oracle = permutation + no pair out of order (all pairs) + stability (all pairs) + input unmodified for the non-in-place forms; float lists with -0.0 / +0.0 (equal but distinguishable) compared bit for bit with a strict stable reference sort, both directions. " +
-					"Descriptor sorts (SortedListBySortDescriptors, builder.ToSortedList, SortBySortDescriptors, builder.Sort): all 492 stacks of 1..3 distinct keys x direction mixes x {transformer, field-name} with ComparableOrdered[int], ComparableString, ComparableOrdered[float64] keys over all lists up to length 2 (3) of 12 record values plus PRNG lists, field-name stacks also on a second record type that has the same field names at other positions and on []any lists mixing three struct types; PRNG lists with keys at the extremes of their type (Max/MinInt64, +-2^62, +-Inf, denormals); builders forked from one shared prefix builder (all one-key extensions of every 0..2-key prefix built first, then each sorts); oracle = permutation ordered under the reference lexicographic comparison. distinct_nontrivial = enumerated (api, comparator/stack, list) cases with >= 2 elements",
+					"Descriptor sorts (SortedListBySortDescriptors, builder.ToSortedList, SortBySortDescriptors, builder.Sort): all 492 stacks of 1..3 distinct keys x direction mixes x {transformer, field-name} with ComparableOrdered[int], ComparableString, ComparableOrdered[float64] keys over all lists up to length 2 (3) of 12 record values plus PRNG lists, field-name stacks also on a second record type that has the same field names at other positions and on []any lists mixing three struct types, and on distinct struct types that PRINT alike (function-local types of one name, fields in another order) sorted one after the other in one process; string keys with invalid UTF-8, NUL and supplementary-plane runes (bytewise order); PRNG lists with keys at the extremes of their type (Max/MinInt64, +-2^62, +-Inf, denormals); builders forked from one shared prefix builder (all one-key extensions of every 0..2-key prefix built first, then each sorts); oracle = permutation ordered under the reference lexicographic comparison. distinct_nontrivial = enumerated (api, comparator/stack, list) cases with >= 2 elements",
 				Assumptions: []string{"only strict comparators are generated (sort.SliceStable's contract)", "no stability claim for descriptor sorts", "descriptor keys are never nil"},
 				Exhaustive:  true,
 			}
